@@ -31,7 +31,7 @@ T = {
 }
 
 ROOT, PREFIX, ROUND = "/tmp/mut", "", 1
-for _r in (2, 3, 4, 5, 6):
+for _r in (2, 3, 4, 5, 6, 7):
     if "--round%d" % _r in sys.argv:
         sys.argv.remove("--round%d" % _r)
         ROOT, PREFIX, ROUND = "/tmp/mut%d" % _r, "r%d-" % _r, _r
